@@ -187,7 +187,7 @@ def method_chain(fn, n, follow_lets=True, depth=6):
                 d = hirq.single_def(fn, b)
                 if d is not None:
                     init = peel(d, NO_T)
-                    if init.get("k") == "mcall":
+                    if init.get("k") == "mcall" or local_of(init, NO_T) is not None:
                         n = init
                         depth -= 1
                         continue
